@@ -64,7 +64,14 @@ def run(ctx):
          "_resolve_history_target no longer branches on history == 'deep': both kinds restore the same thing", rh.node)
     if deep_tests:
         dt = deep_tests[0]
-        leaves = [x for x in ast.walk(dt) if isinstance(x, ast.ListComp) and ("is_atomic" in norm(x) or "not node.states" in norm(x) or "is_final" in norm(x))]
+        from sa.util import canon_atom as _cad
+        def _under_deep(x):
+            for a, pol in guards_at(rh, x):
+                t = _cad(a, pol)
+                if t[0] == "==" and "'deep'" in (t[1], t[2]) and t[3] is True:
+                    return True
+            return False
+        leaves = [x for x in own_nodes(rh.node) if isinstance(x, ast.ListComp) and ("is_atomic" in norm(x) or ".states" in norm(x) or "is_final" in norm(x)) and _under_deep(x)]
         c.ob("R7", bool(leaves), rh, "deep-restores-leaves", "deep history restores the remembered leaves" if leaves else
              "the deep-history branch no longer selects the remembered leaf states", dt)
         from sa.util import canon_atom as _ca7
